@@ -10,3 +10,8 @@ open Comrak.C14
 #print axioms inline_filtered_iff
 #print axioms block_filtered
 #print axioms unfiltered_verbatim
+#print axioms no_disallowed_survives
+#print axioms no_disallowed_survives_partial
+#print axioms no_disallowed_survives_formfeed_counterexample
+#print axioms drv_survivors_eq
+#print axioms inline_first_not_disallowed
